@@ -779,15 +779,6 @@ theorem run_err {cid : Nat} {c : Cfg} {e : Env} {s s' : State} {o : Option Ctx} 
 
 /-! ### decodeAndRun, changeTo -/
 
-theorem not_httpBindExcluded {c : Cfg} {e : Env} (h : httpBindExcluded c e = false) :
-    ∀ a ∈ c.apps, a.isHttp = true → ∀ x ∈ a.listen.tail, x ∉ e.blocked := by
-  intro a ha hh x hx hb
-  unfold httpBindExcluded at h
-  rw [List.any_eq_false] at h
-  have := h a ha
-  simp [hh] at this
-  exact this x hx hb
-
 theorem decodeAndRun_ok {cid : Nat} {c : Cfg} {e : Env} {s0 s1 : State}
     (h : decodeAndRun cid c e s0 = (s1, .ok)) :
     ∃ s' ctx, run cid c e s0 = (s', some ctx, .ok) ∧ s1 = unsyncedStop s0.cur { s' with cur := some ctx } := by
@@ -806,13 +797,12 @@ theorem decodeAndRun_ok {cid : Nat} {c : Cfg} {e : Env} {s0 s1 : State}
 
 theorem decodeAndRun_err {cid : Nat} {c : Cfg} {e : Env} {s0 s1 : State} {r : Res}
     (hb : ∀ k ∈ s0.socks, k.cid ≠ cid) (h : decodeAndRun cid c e s0 = (s1, r)) (hr : r ≠ .ok) :
-    Frame4 s0 s1 ∧ Own cid s0.socks [3] s1 ∧
-    ((∀ a ∈ c.apps, a.isHttp = true → ∀ x ∈ a.listen.tail, x ∉ e.blocked) → s1.socks = s0.socks) := by
+    Frame4 s0 s1 ∧ s1.socks = s0.socks := by
   unfold decodeAndRun at h
   split at h
   · simp at h
     obtain ⟨rfl, _⟩ := h
-    exact ⟨Frame4.rfl' _, ⟨[], by simp, by simp⟩, fun _ => rfl⟩
+    exact ⟨Frame4.rfl' _, rfl⟩
   · have hf := run_frame4 cid c e s0
     generalize hrun : run cid c e s0 = q at h hf
     obtain ⟨s', o, res⟩ := q
@@ -825,7 +815,7 @@ theorem decodeAndRun_err {cid : Nat} {c : Cfg} {e : Env} {s0 s1 : State} {r : Re
       have : s1 = s' := by
         cases o <;> cases res <;> simp at h hok ⊢ <;> exact h.1.symm
       subst this
-      exact ⟨hf, herr.1, herr.2⟩
+      exact ⟨hf, herr⟩
 
 /-- the four ways `changeTo` can go -/
 theorem changeTo_cases (c : Cfg) (e : Env) (s : State) :
@@ -858,18 +848,15 @@ theorem rejected_changes_nothing' (s : State) (c : Cfg) (e : Env)
     (hr : (changeTo c e s).2.accepted = false) :
     (changeTo c e s).1.raw = s.raw ∧ (changeTo c e s).1.rawJSON = s.rawJSON ∧
     (changeTo c e s).1.cur = s.cur ∧ (changeTo c e s).1.next = s.next ∧
-    Own s.next s.socks [3] (changeTo c e s).1 ∧
-    (httpBindExcluded c e = false → (changeTo c e s).1.socks = s.socks) := by
+    (changeTo c e s).1.socks = s.socks := by
   have hb : ∀ k ∈ s.socks, k.cid ≠ s.next := fun k hk => Nat.ne_of_lt (hs k hk)
-  have own0 : Own s.next s.socks [3] s := ⟨[], by simp, by simp⟩
   rcases changeTo_cases c e s with ⟨_, h⟩ | h | ⟨s1, _, h⟩ | ⟨s1, r, hok, hq, h⟩
   · rw [h] at hr; simp [Res.accepted] at hr
-  · rw [h]; exact ⟨hw.symm, rfl, rfl, rfl, own0.socks_eq rfl, fun _ => rfl⟩
+  · rw [h]; exact ⟨hw.symm, rfl, rfl, rfl, rfl⟩
   · rw [h] at hr; simp [Res.accepted] at hr
   · rw [h]
-    obtain ⟨hf, hown, hclean⟩ := decodeAndRun_err (s0 := { s with raw := some c }) hb hq hok
-    exact ⟨hw.symm, hf.rawJSON, hf.cur, hf.next, hown.socks_eq rfl,
-      fun hx => hclean (not_httpBindExcluded hx)⟩
+    obtain ⟨hf, hsock⟩ := decodeAndRun_err (s0 := { s with raw := some c }) hb hq hok
+    exact ⟨hw.symm, hf.rawJSON, hf.cur, hf.next, hsock⟩
 
 /-! ### accepted attempts; the invariant of histories without the F2 event -/
 
@@ -1031,16 +1018,14 @@ theorem answers_new (cid : Nat) (l : List App) :
     congr 1
     simp [appSocks, Spec.appAnswers]
 
-/-- one attempt outside F2's region keeps the invariant, with the spec's all-or-nothing update -/
-theorem inv_changeTo {s : State} {r : Option Cfg} (h : Inv s r) (c : Cfg) (e : Env)
-    (hx : httpBindExcluded c e = false) :
+/-- one attempt keeps the invariant, with the spec's all-or-nothing update -/
+theorem inv_changeTo {s : State} {r : Option Cfg} (h : Inv s r) (c : Cfg) (e : Env) :
     Inv (bump (changeTo c e s)).1 (bif (changeTo c e s).2.accepted then some c else r) := by
   cases ha : (changeTo c e s).2.accepted with
   | false =>
     simp only [cond_false]
-    obtain ⟨h1, h2, h3, h4, _, h6⟩ :=
+    obtain ⟨h1, h2, h3, h4, h6⟩ :=
       rejected_changes_nothing' s c e (h.raw.trans h.rawJSON.symm) h.sockCid ha
-    have h6 := h6 hx
     refine ⟨h1.trans h.raw, h2.trans h.rawJSON, ?_, ?_⟩
     · intro k hk
       show k.cid < (changeTo c e s).1.next + 1
@@ -1135,13 +1120,12 @@ theorem validate_frame (c : Cfg) (e : Env) (s : State) : Frame s (validate c e s
     | none => exact h1
     | some ctx => exact h1.trans (cancel_frame _ _ _ _ _)
 
-/-- one operation outside F2's region keeps the invariant; the spec is told only whether the
-    operation was accepted -/
-theorem inv_step {s : State} {r : Option Cfg} (h : Inv s r) (op : Op) (hx : excluded r op = false) :
+/-- one operation keeps the invariant; the spec is told only whether the operation was accepted -/
+theorem inv_step {s : State} {r : Option Cfg} (h : Inv s r) (op : Op) :
     Inv (step s op).1 (Spec.step r op (step s op).2.accepted) := by
   cases op with
   | load c e =>
-    have := inv_changeTo h c e (by simpa [excluded, Spec.attempted, opEnv] using hx)
+    have := inv_changeTo h c e
     show Inv (bump (changeTo c e s)).1 (Spec.step r (.load c e) (changeTo c e s).2.accepted)
     cases hacc : (changeTo c e s).2.accepted <;> rw [hacc] at this <;> exact this
   | patch a e =>
@@ -1155,7 +1139,6 @@ theorem inv_step {s : State} {r : Option Cfg} (h : Inv s r) (op : Op) (hx : excl
       | none => exact inv_frame_bump h (Frame.rfl' s) _
       | some apps =>
         have := inv_changeTo h { c0 with apps := apps } e
-          (by simpa [excluded, Spec.attempted, opEnv, hra] using hx)
         show Inv (bump (changeTo { c0 with apps := apps } e s)).1
           (Spec.step (some c0) (.patch a e) (changeTo { c0 with apps := apps } e s).2.accepted)
         cases hacc : (changeTo { c0 with apps := apps } e s).2.accepted <;> rw [hacc] at this
@@ -1172,7 +1155,6 @@ theorem inv_step {s : State} {r : Option Cfg} (h : Inv s r) (op : Op) (hx : excl
       | none => exact inv_frame_bump h (Frame.rfl' s) _
       | some apps =>
         have := inv_changeTo h { c0 with apps := apps } e
-          (by simpa [excluded, Spec.attempted, opEnv, hra] using hx)
         show Inv (bump (changeTo { c0 with apps := apps } e s)).1
           (Spec.step (some c0) (.del n e) (changeTo { c0 with apps := apps } e s).2.accepted)
         cases hacc : (changeTo { c0 with apps := apps } e s).2.accepted <;> rw [hacc] at this
@@ -1195,12 +1177,10 @@ theorem inv_step {s : State} {r : Option Cfg} (h : Inv s r) (op : Op) (hx : excl
     cases hk'
 
 theorem inv_runBoth : ∀ (ops : List Op) (s : State) (r : Option Cfg), Inv s r →
-    noExcluded s r ops = true → Inv (runBoth s r ops).1 (runBoth s r ops).2
-  | [], _, _, h, _ => h
-  | o :: os, s, r, h, hx => by
-    unfold noExcluded at hx
-    simp only [Bool.and_eq_true, Bool.not_eq_true'] at hx
+    Inv (runBoth s r ops).1 (runBoth s r ops).2
+  | [], _, _, h => h
+  | o :: os, s, r, h => by
     unfold runBoth
-    exact inv_runBoth os _ _ (inv_step h o hx.1) hx.2
+    exact inv_runBoth os _ _ (inv_step h o)
 
 end CaddyModel.C01
